@@ -34,3 +34,51 @@ mod kani_harnesses {
     #[kani::unwind(19)]
     fn kani_piece_rx_left_17() { left_case(17); }
 }
+
+// WITNESS for HAND/PeerHandler::event_loop/framing_errors_end_the_connection (C06; finding D15, repaired).  The REAL task is run on
+// a loopback connection; the peer sends (a) a Choke with length prefix 2, (b) a length prefix beyond MAX_FRAME_SIZE, (c) half a
+// message and then closes.  Each must end the connection at once (a KillReq reaches the manager within 4 s); before the repair
+// the select! arm `Ok(frame) = recv_frame()` swallowed the error and the connection stayed open until the keep-alive timeout
+// (6 minutes), holding its reservation.  A fixed-input replay, not a proof.
+#[cfg(all(test, rdest_verif))]
+mod native {
+    use super::*;
+    use tokio::io::AsyncWriteExt;
+    use tokio::net::TcpListener;
+
+    async fn framing_error_case(bytes: &'static [u8], close_after: bool) -> Option<String> {
+        let listener = TcpListener::bind("127.0.0.1:0").await.unwrap();
+        let addr = listener.local_addr().unwrap();
+        let peer = tokio::spawn(async move {
+            let mut s = TcpStream::connect(addr).await.unwrap();
+            s.write_all(bytes).await.unwrap();
+            if !close_after { tokio::time::sleep(Duration::from_secs(10)).await; }
+            drop(s);
+        });
+        let (socket, remote) = listener.accept().await.unwrap();
+        let (tx, mut rx) = mpsc::channel(8);
+        let (btx, _brx) = broadcast::channel(8);
+        let mut ph = PeerHandler::new(remote.to_string(), [1; PEER_ID_SIZE], None, [2; HASH_SIZE], 4, tx, btx.subscribe());
+        let task = tokio::spawn(async move { ph.run_outgoing(socket).await });
+        let got = tokio::time::timeout(Duration::from_secs(4), rx.recv()).await;
+        task.abort();
+        peer.abort();
+        match got {
+            Ok(Some(PeerCmd::KillReq { reason, .. })) => Some(reason),
+            _ => None,
+        }
+    }
+
+    #[test]
+    fn native_c06_framing_error_ends_connection() {
+        let rt = tokio::runtime::Builder::new_current_thread().enable_all().build().unwrap();
+        rt.block_on(async {
+            let r = framing_error_case(&[0, 0, 0, 2, 0, 0], false).await;
+            assert!(r.is_some(), "malformed length (Choke with length 2): the connection is still open after 4 s");
+            let r = framing_error_case(&[0, 1, 0, 1, 7, 0, 0, 0], false).await;
+            assert!(r.is_some(), "oversized frame (length prefix 65537): the connection is still open after 4 s");
+            let r = framing_error_case(&[0, 0, 0, 5, 4, 0], true).await;
+            assert!(r.is_some(), "truncated stream (half a Have, then EOF): the connection is still open after 4 s");
+        });
+    }
+}
